@@ -39,6 +39,29 @@ def main() -> int:
         if not bad:
             passed.add(name)
     missing = sorted(stable - passed)
+    first_missing = list(missing)
+    if missing and len(missing) <= 40:
+        # Thread-timing tests (executor monitors) fail now and then on a loaded machine: run the
+        # ones that did not pass once more on their own before counting them.
+        ids = []
+        for m in missing:
+            mod, name = m.split("::", 1)
+            ids.append(mod.replace(".", "/") + ".py::" + name)
+        fd, xml2 = tempfile.mkstemp(suffix=".xml", dir="/dev/shm")
+        os.close(fd)
+        subprocess.run(cmd[:-1] + [f"--junitxml={xml2}"] + ids, cwd=repo, env=env,
+                       stdout=subprocess.PIPE, stderr=subprocess.STDOUT, text=True)
+        try:
+            for tc in ET.parse(xml2).iter("testcase"):
+                name = f"{tc.get('classname')}::{tc.get('name')}"
+                if not any(ch.tag in ("failure", "error", "skipped") for ch in tc):
+                    passed.add(name)
+        except ET.ParseError:
+            pass
+        os.unlink(xml2)
+        missing = sorted(stable - passed)
+        print(f"rerun of {len(first_missing)} not-passing stable tests on their own: "
+              f"{len(first_missing) - len(missing)} passed")
     print(tail)
     print(f"stable={len(stable)} passed_now={len(passed)} stable_not_passing={len(missing)}")
     for m in missing[:40]:
